@@ -59,12 +59,17 @@ def module_alias_chain(repo, mod, name, depth=4):
 
 
 def expansion_of_partial(val):
-    """the Solution method bound as get_solution_expansion in functools.partial(...)"""
-    if isinstance(val, ast.Call) and (dotted(val.func) or "").split(".")[-1] == "partial":
+    """the Solution expansion method bound into a module-level callable: functools.partial(..., get_solution_expansion=Solution.expand_x)
+    or any factory call that is handed exactly one `Solution.expand_*` method (positionally or by keyword)"""
+    if not isinstance(val, ast.Call):
+        return None
+    if (dotted(val.func) or "").split(".")[-1] == "partial":
         for k in val.keywords:
             if k.arg == "get_solution_expansion":
                 return dotted(k.value)
-    return None
+    bound = [dotted(a) for a in list(val.args) + [k.value for k in val.keywords]]
+    bound = [b for b in bound if b and b.split(".")[-1].startswith("expand_") and "Solution" in b]
+    return bound[0] if len(bound) == 1 else None
 
 
 def apply(chk, rid, floor=12):
@@ -92,6 +97,7 @@ def apply(chk, rid, floor=12):
                    f"reads {sorted(got.get('square', ()))} of the square form and {sorted(got.get('triangular', ()))} of the triangular form in one computation", m.loc(f), sure=True)
     # (b) impact meets recursion
     sm = repo.mod("irispie.fords.solutions")
+    repo.mod("irispie.fords.shock_simulators")         # the partials live here: a change there is a reason for the flows to vanish
     n_flows = 0
     for m in repo.modules.values():
         top = m.name.split(".")[1] if "." in m.name else m.name
